@@ -17,6 +17,7 @@ Ops (impl result after `=>`):
   expect n                         =>
   tobitmap s1 s2 ...               => first bitmap remain...
   nackarg seq first rate           => -1 | next        (shimmed readLoop decision)
+  stress cap readers ms            => ok | bad:<what a concurrent reader saw>
 -/
 namespace Galene.Engine.Cache
 open Galene Galene.Engine
@@ -197,6 +198,9 @@ def step (st : St) (op impl : List String) : St × Verdict :=
           | _ => .badop "tobitmap result"
         (st, match ov with | .ok => v | o => o)
     | none => (st, .badop "tobitmap")
+  | ["stress", _, _, _] =>
+    -- concurrent readers: under the mutex every history is sequential, so every read is sound (C05_get_sound)
+    (st, if impl = ["ok"] then .ok else .oracle s!"C05: concurrent reader observed {" ".intercalate impl}")
   | ["nackarg", seq, first, rate] =>
     match nat? seq, nat? first, nat? rate with
     | some s, some f, some r =>
